@@ -38,7 +38,7 @@ pub(crate) struct Worker<T: Sync + Send + 'static> {
     pub(crate) should_notify: Arc<AtomicBool>,
     pub(crate) was_canceled: bool,
     pub(crate) last_snapshot: u32,
-    notify: Arc<(dyn Fn() + Sync + Send)>,
+    pub(crate) notify: Arc<(dyn Fn() + Sync + Send)>,
     pub(crate) items: Arc<boxcar::Vec<T>>,
     in_flight: Vec<u32>,
 }
@@ -180,11 +180,6 @@ impl<T: Sync + Send + 'static> Worker<T> {
             self.reset_matches();
             self.process_new_items_trivial();
             #[cfg(nucleo_verif)]
-            crate::verif::point("run:before_flag", 0);
-            if self.should_notify.load(atomic::Ordering::Relaxed) {
-                (self.notify)();
-            }
-            #[cfg(nucleo_verif)]
             crate::verif::point("run:exit", 0);
             return;
         }
@@ -270,11 +265,6 @@ impl<T: Sync + Send + 'static> Worker<T> {
         } else {
             self.matches
                 .truncate(self.matches.len() - take(unmatched.get_mut()) as usize);
-            #[cfg(nucleo_verif)]
-            crate::verif::point("run:before_flag", 0);
-            if self.should_notify.load(atomic::Ordering::Relaxed) {
-                (self.notify)();
-            }
         }
         #[cfg(nucleo_verif)]
         crate::verif::point("run:exit", 0);
